@@ -375,7 +375,13 @@ UpdPeret(sh, ev) ==
        [] OTHER -> b0
 
 UpdProbeCall(sh, ev) ==
-  LET b0 == IF ev.r = "err" THEN [sh EXCEPT !.regErrSeen = TRUE, !.faultSeen = TRUE,
+  LET \* enable() of an fd-backed source that is enabled already: the kernel refuses the duplicate (EEXIST) and nothing
+      \* may change -- the source stays exactly as registered as it was (not "fuzzy", the kernel table is still compared)
+      dupEnable == /\ ev.e = "reg" /\ ev.r = "err" /\ ev.inj = 0 /\ OpOn(sh)
+                   /\ CurOp(sh).op = "enable" /\ CurOp(sh).live /\ CurOp(sh).tgt = ev.s /\ CurOp(sh).ctx # ev.s
+                   /\ sh.en[ev.s] /\ ~IsTimer(sh, ev.s)
+      b0 == IF dupEnable THEN [sh EXCEPT !.regErrSeen = TRUE, !.faultSeen = TRUE]
+            ELSE IF ev.r = "err" THEN [sh EXCEPT !.regErrSeen = TRUE, !.faultSeen = TRUE,
                                             !.fuzzy[ev.s] = TRUE,
                                             !.c16off = @ \/ ev.inj = 0] ELSE sh
   IN IF sh.pa.on /\ ev.s = sh.pa.s
@@ -679,6 +685,9 @@ ViolSnap(sh, ev) ==
           \cup If(sh.cbTargets # {} /\ ~sh.faultSeen, {<<"C08", "in_callback_operation_effect_differs">>})
           \* a Disable / Remove / Reregister was applied in this dispatch and the loop's books are wrong afterwards
           \cup If(sh.appliedNow /\ ~sh.faultSeen, {<<"C09", "post_action_half_applied">>}))
+  \* C07: a disabled source is out of the lifecycle set as well (it would be called from before_sleep otherwise)
+  \cup If(\E x \in sh.S : sh.life[x] = "in" /\ ~sh.en[x] /\ ~sh.fuzzy[x] /\ KeyOf(sh, x) \in LifeSetOf(ev) /\ ~sh.faultSeen,
+          {<<"C07", "disabled_source_kept_in_lifecycle_set">>})
   \cup If(Len(ev.life) # Cardinality(LifeSetOf(ev)), {<<"C14", "lifecycle_set_duplicates">>})
   \cup If(Cardinality({i \in DOMAIN ev.slots : ev.slots[i][3] = 1}) # Cardinality({s \in sh.S : sh.life[s] = "in"}),
           {<<"C06", "occupied_slots_mismatch">>} \cup If(sh.faultSeen, {<<"C15", "slot_leak_after_fault">>}))
